@@ -1067,6 +1067,12 @@ def entry_cases(rep, rng, quick):
                 e["result"] = r_
             ents.append(e)
         cases.append({"id": "ent-frag-same-type-%d" % i, "family": "entries-fragment-results-of-one-type", "S": {"structs": [], "globals": [], "consts": [], "overrides": [], "functions": [], "entries": ents}, "opts": F.opts()})
+    # the same struct taken twice by one vertex entry (the validator refuses the repeated locations; validation is off by default)
+    cases.append({"id": "ent-same-struct-twice", "family": "entries-same-struct-twice", "opts": F.opts(),
+                  "S": {"structs": [{"name": "VIn", "members": [{"name": "a", "ty": F.VEC4, "io": {"k": "loc", "n": 0}}]}, {"name": "Other", "members": [{"name": "b", "ty": F.VEC4, "io": {"k": "loc", "n": 1}}]}],
+                        "globals": [], "consts": [], "overrides": [], "functions": [],
+                        "entries": [{"name": "vs_main", "stage": "vertex", "params": [{"k": "struct", "name": "p", "ty": "VIn"}, {"k": "struct", "name": "q", "ty": "Other"}, {"k": "struct", "name": "r", "ty": "VIn"}],
+                                     "result": {"k": "builtin", "b": "position"}, "body": [], "wg": []}]}})
     # two vertex input structs whose snake-case names coincide (the clean generator emits a helper that does not compile: finding F13)
     for i, (a, b) in enumerate([("VertexInput", "vertex_input"), ("Particle", "particle")]):
         cases.append({"id": "ent-snake-%d" % i, "family": "entries-same-snake-name", "opts": F.opts(),
